@@ -334,7 +334,7 @@ class C18(Check):
                     viol0('dump-not-repeatable', 'dump() of the same election differs on the second call')
                 if t.E.json() != j0:
                     viol0('json-changes-after-rendering', 'json() before and after report()/dump() differ')
-                if acc.evaluations % 3 == 0:
+                if h64((case['s'], case['b'], configs.cfg_key(cfg))) % 3 == 0:
                     r1, j1 = t.E.report(), t.E.json()
                     if t.E.report() != r1 or t.E.json() != j1 or t.E.dump() != d1:
                         viol0('rendering-not-repeatable', 'report()/json()/dump() differ when called again on the same election')
